@@ -7,7 +7,7 @@ open Gonnx
 
 def specOfOpt (dt : DType) (dom : String) (o : Option (Tensor Int)) : SpecOut :=
   match o with
-  | some t => { domain := dom, outs := some [some ⟨dt, t⟩] }
+  | some t => { domain := dom, outs := some [some (DT.mk dt t none)] }
   | none => { domain := "mustRefuse" }
 
 def runIndexOp (op : String) (attrs : Json) (ins : List (Option DT)) : Answer :=
@@ -73,7 +73,7 @@ def runIndexOp (op : String) (attrs : Json) (ins : List (Option DT)) : Answer :=
     { model, guard, tags := [s!"rank{X.t.rank}", s!"n{starts.length}", if inMust then "must" else "outside"],
       spec := match sp with
         | none => { domain := "mustRefuse" }
-        | some t => { domain := if inMust then "must" else "mayRefuse", outs := some [some ⟨X.dt, t⟩] } }
+        | some t => { domain := if inMust then "must" else "mayRefuse", outs := some [some (DT.mk X.dt t none)] } }
   | "Gather", [some X, some I] =>
     let names := attrNames attrs
     if names.length > 1 then { model := .ofErr .attr, spec := { domain := "mayRefuse" }, tags := ["attr-count"] }
@@ -95,7 +95,7 @@ def runIndexOp (op : String) (attrs : Json) (ins : List (Option DT)) : Answer :=
       { model := okT X.dt (expandOp X.t S.t.data),
         spec := match sp with
           | none => { domain := "mustRefuse" }
-          | some t => { domain := if shorter then "mayRefuse" else "must", outs := some [some ⟨X.dt, t⟩] },
+          | some t => { domain := if shorter then "mayRefuse" else "must", outs := some [some (DT.mk X.dt t none)] },
         guard := if sp.isNone then ["expand.incompatible_target"] else if shorter then ["expand.shorter_target"] else [],
         tags := [s!"rank{X.t.rank}", s!"trank{target.length}", if sp.isSome then "compatible" else "incompatible"] }
   | _, _ => { model := { status := "unmodelled" } }
@@ -119,7 +119,7 @@ def runConcat (attrs : Json) (ins : List (Option DT)) : Answer :=
             tags := ["mixed-dtype"], guard := ["concat.mixed_dtypes"] }
         else
           let model : Outcome := match concatOp axis (ts.map (·.t)) with
-            | .ok t => { status := "ok", outs := [some ⟨t0.dt, t⟩] }
+            | .ok t => { status := "ok", outs := [some (DT.mk t0.dt t none)] }
             | .error e => .ofErr e
           { model, spec := specOfOpt t0.dt "must" (Spec.concat axis (ts.map (·.t))),
             guard := if (Spec.concat axis (ts.map (·.t))).isNone then ["concat.invalid_request"] else [],
